@@ -102,6 +102,24 @@ def rule_source(chk, prog):
                             okcnt = False
                             for (q, _) in good:
                                 cnt = strip_casts(q.ops[1])
+                                if cnt.is_inst and cnt.op == "phi":
+                                    # the counter lives in a local: the very SSA value that indexes the stores, stepped by one
+                                    steps = [o for o in cnt.ops if o.is_inst and o.op == "add" and
+                                             any(x is cnt for x in o.ops) and any(x.is_const and x.is_int and x.sval == 1 for x in o.ops)]
+                                    carried = [o for o, pr in zip(cnt.ops, cnt.x["inc"]) if f.reaches(cnt.bb, pr) and o is not cnt]
+                                    if carried and all(o in steps for o in carried):
+                                        for s_ in stored:
+                                            for u in f.uses.get(s_, []):
+                                                if u.op == "store" and strip_casts(u.ops[0]) is s_:
+                                                    g = strip_casts(u.ops[1])
+                                                    for el in (g.x.get("gep") or []) if g.is_inst and g.op == "getelementptr" else []:
+                                                        if el[0] in ("*", "[]"):
+                                                            ix = strip_casts(el[1])
+                                                            while ix.is_inst and ix.op in ("zext", "sext"):
+                                                                ix = ix.ops[0]
+                                                            if ix is cnt:
+                                                                okcnt = True
+                                    continue
                                 if not (cnt.is_inst and cnt.op == "load"):
                                     continue
                                 cl = resolve_ptr(prog, cnt.ops[0], f.unit)[:2]
